@@ -71,6 +71,9 @@ func (codecV1) ReadHeadBody(r io.Reader) ([]byte, []byte, error) {
 	}
 	var head = V1Header(buf[:])
 	var length = head.Len()
+	if length < V1HeaderSize {
+		return nil, nil, fmt.Errorf("payload size %d less than header size", length)
+	}
 	if length > V1MaxPayloadBytes {
 		return nil, nil, fmt.Errorf("payload size %d overflow", length)
 	}
